@@ -135,6 +135,23 @@ class Variant:
         self.name, self.value = name, value
 
 
+class SymOption:
+    """Option whose variant is decided by a Bool term: Some(value) iff cond"""
+    def __init__(self, cond, value):
+        self.cond, self.value = cond, value
+
+
+class DiscT(T):
+    """discriminant of a SymOption: 1 iff cond (switchInt forks on cond instead of comparing integers)"""
+    __slots__ = ("cond",)
+
+
+class VecV:
+    """a local Vec filled by push: the list of pushed values (immutable; push replaces the local)"""
+    def __init__(self, items):
+        self.items = items
+
+
 class HalfFloat:
     """(integral value) / c for a small positive integer constant c: only floor() / ceil() of it are interpreted.  The f64 quotient of two
     integers below 2^53 rounds to the nearest double of the true quotient, which can only reach an integer when the true quotient is one
@@ -463,7 +480,9 @@ class Ctx:
                 taken_any = False
                 neg = []
                 for k, t in targets:
-                    if v.sort == "Bool":
+                    if isinstance(v, DiscT) and k in (0, 1):
+                        c = v.cond if k == 1 else t_not(v.cond)
+                    elif v.sort == "Bool":
                         c = t_not(v) if k == 0 else v
                     else:
                         c = cmp("=", v, I(k))
@@ -477,6 +496,8 @@ class Ctx:
                     self.exec_block(fn, frc, t, q, cont)
                     if c.c is True:
                         return
+                if other is not None and isinstance(v, DiscT) and {k for k, _ in targets} >= {0, 1}:
+                    other = None
                 if other is not None:
                     c = B(True)
                     for x in neg:
@@ -601,6 +622,9 @@ class Ctx:
         v = fr["vals"][l]
         for pr in proj:
             if pr[0] == "downcast":
+                if isinstance(v, SymOption) and pr[1] == "Some":
+                    v = Tup([v.value])
+                    continue
                 if not isinstance(v, Variant) or v.name != pr[1]:
                     raise Unsupported("downcast of a value that is not a known %s variant" % pr[1])
                 v = Tup([v.value])
@@ -754,6 +778,10 @@ class Ctx:
             v = self.read_place(fr, l, proj)
             if isinstance(v, Variant):
                 return I({"None": 0, "Some": 1, "Ok": 0, "Err": 1}.get(v.name, 0))
+            if isinstance(v, SymOption):
+                d = DiscT("(ite %s 1 0)" % v.cond.s, "Int")
+                d.cond = v.cond
+                return d
             raise Unsupported("discriminant of a value that is not a known variant")
         m = re.match(r"^Len\((.*)\)$", rv)
         if m:
